@@ -183,6 +183,9 @@ func (g *gen) tag(req bool, used map[string]bool) string {
 			name += ",omitempty"
 		}
 		parts = append(parts, fmt.Sprintf(`%s:"%s"`, loc, name))
+		if r.Chance(1, 4) {
+			parts = append(parts, fmt.Sprintf(`default:"%s"`, hx.Pick(r, []string{"5", "0", "42", "abc", "true", "false", "x", "007", "1"})))
+		}
 		if r.Chance(1, 6) {
 			parts = append(parts, fmt.Sprintf(`json:"%s"`, hx.Pick(r, jsonNames)))
 		}
